@@ -43,6 +43,9 @@ func init() {
 func c07Wrap(c *core.Ctx) {
 	wrapLegMu.Lock()
 	defer wrapLegMu.Unlock()
+	if c.Prop == "C07" || c.Prop == "C10" {
+		defer idsLegOwnStore(c) // counter values in any order within one second: every earlier message keeps its bytes (c02_ids.go)
+	}
 	r := c.SubRng("c07-wrap")
 	n := c.Scale(12, 200)
 	for i := 0; i < n; i++ {
